@@ -235,9 +235,10 @@ class Mutator:
     stack (the harness sets .target): mode 'add' binds a new key, 'del'
     removes a spare key."""
 
-    def __init__(self, world, mid, mode):
+    def __init__(self, world, mid, mode, on=None):
         self.world, self.mid, self.mode = world, mid, mode
-        self.target = None
+        self.on = on             # name of the mapping to change (None: the
+        self.target = None       # namespace's own bottom mapping)
         self.n = 0
 
     def __call__(self):
@@ -247,6 +248,8 @@ class Mutator:
             self.n += 1
             if self.mode == 'add':
                 t['zz%s%d' % (self.mid, self.n)] = self.n
+            elif self.mode == 'empty':
+                t.clear()
             else:
                 for k in sorted(t):
                     if k.startswith('spare'):
@@ -356,7 +359,7 @@ def build(spec, world, mode, keep=None):
     if t == 'response':
         return Response(world)
     if t == 'mutator':
-        return Mutator(world, spec['id'], spec['mode'])
+        return Mutator(world, spec['id'], spec['mode'], spec.get('on'))
     if t == 'exc':
         return EXC[spec['n']]
     if t == 'tmpl':
